@@ -15,19 +15,29 @@ class Case(_Case):
 
 LEVEL = "proof"
 # C functions this check's models mirror (source-text fingerprints are recorded in the evidence, see translate/funchash.py)
-MODELLED_FUNCS = {'src/json/iwjser.c': ['_jbl_unescape_json_string', '_jbl_parse_json_key', '_jbl_parse_value', '_jbl_node_as_json'], 'src/json/iwjson.c': ['_jbl_write_json_string', '_jbl_as_json', 'iwjson_ftoa'], 'src/utils/iwconv.c': ['iwstrtod']}
+MODELLED_FUNCS = {'src/json/iwjser.c': ['_jbl_unescape_json_string', '_jbl_parse_json_key', '_jbl_parse_value', '_jbl_node_as_json'], 'src/json/iwjson.c': ['_jbl_write_json_string', '_jbl_as_json', 'iwjson_ftoa'], 'src/utils/iwconv.c': ['iwstrtod', 'skipwhite']}
 MANIFEST = dict(
     level="proof",
     text=("Lean 4 theorems over executable models of the JSON text layer (two-pass string unescaper, recursive-descent parser incl. "
           "strtoll number scanning, string/int/structure printer with all flags, UTF-8 leaves): every RFC 8259 text, described "
           "generatively as a concrete syntax tree with arbitrary white space, every escape spelling and surrogate pairs, parses to "
           "the value it denotes; printed text is such a syntax tree of the same value, hence parses back; the fill pass of the "
-          "unescaper stores exactly the bytes counted by the length pass; with the code-point flag output is ASCII; the exact-arithmetic model of iwjson_ftoa writes a valid number token rounded half-even at the eighth fraction digit. The models are "
+          "unescaper stores exactly the bytes counted by the length pass; with the code-point flag output is ASCII; the exact-arithmetic model of iwjson_ftoa writes a valid number token rounded half-even at the eighth fraction digit; "
+          "iwstrtod is modelled branch by branch over a soft-float IEEE binary64 (exact integer arithmetic on bit patterns, proved round-to-nearest-even: "
+          "scale-invariant, identity on representables, monotone, faithful, half-unit) and plugged into the parser model: it consumes exactly "
+          "every valid number token, reads integers below 2^53 exactly, is sign-symmetric except for its two DBL_MIN special cases, monotone in the "
+          "digits read so far, and provably returns the F8 witnesses 0.3, 0.7, 1e23 one ulp above the correctly rounded double. The models are "
           "tied to the code by a differential run of jbn_from_json / jbn_as_json / _jbl_unescape_json_string / iwstrtod / iwjson_ftoa "
-          "against the compiled Lean definitions, and Python's json module is the independent reference parser"),
+          "against the compiled Lean definitions (bit pattern, consumed length and range flag of iwstrtod on every number token and on a malformed / "
+          "huge-exponent / long-digit / denormal stream; the soft float against the hardware on 10^5 boundary-biased operand pairs per run), and "
+          "Python's json module is the independent reference parser"),
     note=("trusted: Lean kernel, translator, harness/generator, Python json/Fraction as reference, gcc+ASan/UBSan; modelled not "
-          "verified: the C control flow of the functions named; doubles are opaque bit patterns on the parse side (iwstrtod is an assumption `SdSpec`: consumes exactly a valid token; its "
-          "value is checked at run time only through the executable Float mirror; iwstrtod is not correctly rounded: open finding F8); keys containing U+0000 are truncated (open finding F9)"),
+          "verified: the C control flow of the functions named; libm's pow(10.0, e) is tabulated by a probe at check time (bit patterns for e = -323..308, "
+          "saturation with ERANGE outside checked up to |e| = 1000009), not modelled; binary64 arithmetic is assumed to be SSE2 double operations "
+          "without FMA contraction or x87 excess precision (cross-checked against the hardware, NaN operands excluded); number tokens with a written "
+          "exponent outside -307..308 are excluded from the parse theorem with the model plugged in (pow under/overflow, DBL_MIN special case: the "
+          "parser rejects them); no end-to-end error bound for iwstrtod is proved and it is not correctly rounded (open finding F8, proved on three "
+          "witnesses); the print-then-parse composition keeps the abstract `SdSpec` hypothesis; keys containing U+0000 are truncated (open finding F9)"),
     technique="Lean 4 proof over executable model + differential correspondence (C harness vs compiled Lean driver) + reference parser oracle")
 MODULE = "IwModel.Props.C13"
 THEOREMS = [
@@ -36,6 +46,10 @@ THEOREMS = [
     "IwModel.C13.print_ascii", "IwModel.C13.parse_print_partial", "IwModel.C13.ftoa_number",
     "IwModel.C13.print_valid_ftoa", "IwModel.C13.parse_print_ftoa_partial", "IwModel.C13.key_nul_truncated",
     "IwModel.C13.utf8_roundtrip", "IwModel.C13.generated_ok",
+    "IwModel.C13.softf64_rounding", "IwModel.C13.strtod_token_contract", "IwModel.C13.strtod_int_exact",
+    "IwModel.C13.strtod_int15", "IwModel.C13.strtod_sign_symmetry", "IwModel.C13.strtod_sign_exception",
+    "IwModel.C13.strtod_int_monotone_partial", "IwModel.C13.strtod_f8_witnesses",
+    "IwModel.C13.parse_render_strtod_partial", "IwModel.C13.generated_pow10_ok",
 ]
 
 H = lambda b: binascii.hexlify(bytes(b)).decode() or "-"
@@ -813,6 +827,194 @@ def case_strtod(r):
     return c
 
 
+# ---- iwstrtod on everything it may be handed (model comparison; the oracle speaks only on clean in-scope tokens)
+
+STRTOD_SPECIAL = ["2.2250738585072011e-308", "2.2250738585072012e-308", "2.2250738585072012e-309", "2.2250738585072012e-400",
+                  "-2.2250738585072011e-308", "2.2250738585072011e-0308", "2.2250738585072011E-308", "+2.2250738585072011e-308",
+                  "2.2250738585072011e-307", "2.2250738585072012e-99999999", "22.250738585072011e-309", "2.225073858507201e-308",
+                  "2.22507385850720110e-308", "02.2250738585072012e-308", "4.9e-324", "2.4703282292062328e-324", "5e-324",
+                  "1.7976931348623157e308", "1.7976931348623159e308", "0.3", "0.7", "1e23", "1e22", "0e999", "0e-999", "-0e999",
+                  "1e308", "1e309", "1e-323", "1e-324", "10e-324", "1e99999", "1e100000", "1e999999", "1e1000000", "1e-1000000",
+                  "1e", "1e+", "1e-", "1ex", "1e+x", "1.", "1.e", "1.e5", ".", ".e5", "-.", "-.5", "+.5e1", "-", "+", "", "- 1", "--1", "+-1",
+                  "1e0", "1e00", "1e-0", "1E+000", "1e0001", "1e 5", "1 e5", "0x10", "inf", "nan", "1e5.5", "1.5.5", "1e5e5"]
+
+
+def gen_strtod_wild(r, tags):
+    if r.random() < 0.12:
+        tags.add("sd-special")
+        return r.choice(STRTOD_SPECIAL)
+    s = "".join(r.choice(" \t\n\v\f\r") for _ in range(r.choice([0, 0, 0, 1, 2])))
+    s += r.choice(["", "", "", "-", "-", "+", "--", "+-"])
+    k = r.randrange(8)
+    nd = r.choice([0, 1, 1, 2, 5, 15, 16, 17, 19, 20, 30, 100, 308, 309, 310, 400])
+    if nd:
+        lead = "0" * r.choice([0, 0, 0, 1, 3, 40])
+        s += lead + "".join(r.choice("0123456789") for _ in range(nd))
+        if nd >= 300:
+            tags.add("sd-int-huge")
+    if r.random() < 0.6:
+        nf = r.choice([0, 1, 2, 8, 16, 17, 18, 25, 60, 330, 400])
+        z = r.choice([0, 0, 0, 5, 20, 300, 323, 330]) if nf else 0
+        s += "." + "0" * z + "".join(r.choice("0123456789") for _ in range(nf))
+        tags.add("sd-frac-long" if nf + z >= 300 else "sd-frac")
+    if r.random() < 0.7:
+        e = r.choice([0, 1, 5, 22, 23, 290, 300, 306, 307, 308, 309, 310, 315, 322, 323, 324, 325, 340, 400, 99999, 100000, 100001,
+                      999999, 1000000, 12345678901, r.randrange(0, 330), r.randrange(0, 700), max(0, 308 - nd + r.randrange(-3, 4)),
+                      nd + 323 + r.randrange(-20, 5)])
+        sg = r.choice(["", "+", "-", "-", "-"])
+        s += r.choice("eE") + sg + "0" * r.choice([0, 0, 0, 1, 2, 30]) + str(e)
+        tags.add("sd-exp-sat" if e > 330 else "sd-exp-edge" if e > 290 else "sd-exp")
+    if r.random() < 0.3:
+        s += r.choice(["x", ".", "e", "E", "-", "+", "e5", " ", ",", "]", "}", "\x7f", "e+", "1", ".5", "f", "\t"])
+        tags.add("sd-tail")
+    if k == 0 and len(s) > 1:      # drop or double one byte
+        i = r.randrange(len(s))
+        s = s[:i] + r.choice(["", s[i] * 2]) + s[i + 1:]
+        tags.add("sd-mutated")
+    return s
+
+
+def case_strtod_wild(r):
+    tags = set()
+    s = gen_strtod_wild(r, tags)
+
+    def oracle(out, s=s):
+        w = out[0].split()
+        if not (0 <= int(w[2]) <= len(s.encode("latin1"))):
+            return ("double-wrong", "iwstrtod(%r) consumed %s of %d bytes" % (s[:80], w[2], len(s)))
+        return None
+    c = Case("strtod", ["strtod " + H(s.encode("latin1"))], oracle)
+    c.tags = tags
+    return c
+
+
+# ---- hardware cross-check of the soft float (SoftF64.lean): IEEE binary64 * + / == on boundary-biased pairs
+
+DBL_SPECIALS = [0x0000000000000000, 0x8000000000000000, 0x0000000000000001, 0x8000000000000001, 0x000fffffffffffff,
+                0x0010000000000000, 0x0010000000000001, 0x001fffffffffffff, 0x7fefffffffffffff, 0xffefffffffffffff,
+                0x7ff0000000000000, 0xfff0000000000000, 0x3ff0000000000000, 0xbff0000000000000, 0x4024000000000000,
+                0x3fb999999999999a, 0x4001ccf385ebc89f, 0x4001ccf385ebc8a0, 0x000730d67819e8d2, 0x3fe0000000000000,
+                0x4340000000000000, 0x433fffffffffffff, 0x4340000000000001, 0x7fe0000000000000, 0x0008000000000000]
+
+
+def mkdbl(sign, e, m):
+    return (sign << 63) | (e << 52) | m
+
+
+def gen_f64_operand(r):
+    k = r.randrange(12)
+    sign = r.randrange(2)
+    if k == 0:
+        return r.choice(DBL_SPECIALS)
+    if k == 1:      # subnormal
+        return mkdbl(sign, 0, r.choice([1, 2, 3, (1 << 52) - 1, 1 << 51, r.getrandbits(52), 1 << r.randrange(52), r.getrandbits(r.randrange(1, 53))]))
+    if k == 2:      # power of two and its neighbours
+        b = mkdbl(0, r.randrange(1, 2047), 0) + r.choice([-1, 0, 0, 1])
+        return b | (sign << 63)
+    if k == 3:      # small integers, as iwstrtod feeds them
+        return f2b(float(r.choice([1, -1]) * r.randrange(0, 11)))
+    if k == 4:      # powers of ten (libm table range)
+        return f2b(float("%s1e%d" % (r.choice(["", "-"]), r.randrange(-323, 309))))
+    if k == 5:      # few significant bits (exact products, ties)
+        nb = r.randrange(1, 30)
+        m = (r.getrandbits(nb) | 1 | (1 << (nb - 1))) << (53 - nb)
+        return mkdbl(sign, r.randrange(1, 2047), m & ((1 << 52) - 1))
+    if k == 6:      # mantissa all ones / one low bit
+        return mkdbl(sign, r.randrange(0, 2047), r.choice([(1 << 52) - 1, 1, (1 << 52) - 2, 1 << 51, (1 << 51) + 1]))
+    if k == 7:      # extreme exponents
+        return mkdbl(sign, r.choice([1, 2, 3, 52, 53, 54, 2046, 2045, 2044, 1023 + 970, 1023 + 971, 1023 - 1022 + 52]), r.getrandbits(52))
+    if k == 8:      # integers near 2^53
+        return f2b(float(r.choice([1, -1]) * ((1 << 53) + r.randrange(-64, 64))))
+    return mkdbl(sign, r.randrange(0, 2047), r.getrandbits(52))
+
+
+def dbl_exp(b):
+    return (b >> 52) & 0x7ff
+
+
+def gen_f64_pair(r):
+    a = gen_f64_operand(r)
+    k = r.randrange(10)
+    if k >= 6 or dbl_exp(a) == 0x7ff:
+        return a, gen_f64_operand(r)
+    ea = max(dbl_exp(a), 1)
+    sign = r.randrange(2)
+    man = r.choice([0, 1, (1 << 52) - 1, r.getrandbits(52), r.getrandbits(52), a & ((1 << 52) - 1)])
+    if k == 0:      # product around the subnormal boundary
+        eb = (1023 - ea) + 1023 + r.randrange(-1080, -1015)
+    elif k == 1:    # product around the overflow boundary
+        eb = (1023 - ea) + 1023 + r.randrange(1020, 1027)
+    elif k == 2:    # quotient around the subnormal / overflow boundary
+        eb = ea - r.choice([r.randrange(-1080, -1015), r.randrange(1020, 1027)])
+    elif k == 3:    # sum with an operand near half an ulp of the other (ties, sticky bits)
+        eb = ea + r.choice([-55, -54, -53, -52, -51, -1, 0, 1, 51, 52, 53, 54, 55])
+        man = r.choice([0, 0, 1, (1 << 52) - 1, 1 << 51, r.getrandbits(52)])
+    elif k == 4:    # cancellation: opposite sign, same binade or adjacent
+        eb = ea + r.choice([-1, 0, 0, 1])
+        sign = 1 - (a >> 63)
+        man = (a & ((1 << 52) - 1)) ^ r.choice([0, 0, 1, 2, 1 << 51, r.getrandbits(8)])
+    else:           # product of few-bit significands with exactly 54 bits: exact ties
+        n1 = r.randrange(2, 52)
+        n2 = r.choice([53, 54, 55]) - n1
+        if n2 < 1:
+            n2 = 1
+        m1 = (r.getrandbits(n1) | 1 | (1 << (n1 - 1))) << (53 - n1)
+        m2 = (r.getrandbits(n2) | 1 | (1 << (n2 - 1))) << (53 - n2)
+        ea2 = r.choice([ea, r.randrange(1, 2046), 1023 - 1060 + 1023 - ea if 0 < 986 - ea < 2047 else ea])
+        return mkdbl(a >> 63, ea, m1 & ((1 << 52) - 1)), mkdbl(sign, min(max(ea2, 1), 2046), m2 & ((1 << 52) - 1))
+    if not 0 <= eb <= 2046:
+        eb = min(max(eb, 0), 2046)
+    b = mkdbl(sign, eb, man)
+    return (a, b) if r.random() < 0.5 else (b, a)
+
+
+def py_f64(a, b):
+    """reference: CPython float arithmetic (C doubles), division by zero by the IEEE rule"""
+    x, y = b2f(a), b2f(b)
+    res = [x * y, x + y]
+    if y == 0.0:
+        if x == 0.0 or x != x:
+            q = float("nan")
+        else:
+            q = math.copysign(float("inf"), x) * math.copysign(1.0, y)
+    else:
+        q = x / y
+    res.append(q)
+    return res, x == y
+
+
+F64_PAIRS = 16
+
+
+def case_f64(r):
+    pairs = [gen_f64_pair(r) for _ in range(F64_PAIRS)]
+    iv = r.choice([r.randrange(-10, 11), r.randrange(-(1 << 63), 1 << 63), (1 << 53) + r.randrange(-9, 9), r.randrange(-(1 << 54), 1 << 54) * 2 + 1])
+
+    def oracle(out, pairs=pairs, iv=iv):
+        w = out[0].split()
+        if len(w) != 1 + 4 * len(pairs):
+            raise ValueError("unexpected f64 line")
+        for i, (a, b) in enumerate(pairs):
+            want, eq = py_f64(a, b)
+            for j, nm in enumerate(("*", "+", "/")):
+                got = int(w[1 + 4 * i + j], 16)
+                wv = want[j]
+                if wv != wv:
+                    okv = b2f(got) != b2f(got)
+                else:
+                    okv = got == f2b(wv)
+                if not okv:
+                    return ("f64-arith", "binary64 %016x %s %016x = %016x, reference %016x" % (a, nm, b, got, f2b(wv)))
+            if (w[4 + 4 * i] == "1") != eq:
+                return ("f64-arith", "binary64 %016x == %016x gives %s" % (a, b, w[4 + 4 * i]))
+        if int(out[1].split()[1], 16) != f2b(float(iv)):
+            return ("f64-arith", "(double) %d = %s" % (iv, out[1]))
+        return None
+    c = Case("f64", ["f64 " + " ".join("%016x %016x" % p for p in pairs), "i2d %d" % iv], oracle)
+    c.tags = set()
+    return c
+
+
 def case_ftoa(r):
     b = gen_double_bits(r)
 
@@ -845,7 +1047,7 @@ def case_ftoa(r):
 
 
 GENS = [(case_parse, 10), (case_parse_mal, 4), (case_parse_deep, 0.15), (case_print, 8), (case_print_badutf8, 0.6),
-        (case_unesc, 2), (case_strtod, 2), (case_ftoa, 2)]
+        (case_unesc, 2), (case_strtod, 2), (case_strtod_wild, 3), (case_ftoa, 2)]
 
 
 def gen_cases(r, n):
@@ -936,13 +1138,16 @@ def run(ctx):
                        "either case / surrogate pair; integers around powers of 2 and 10 and the int64 limits; non-integer numbers with 1-25 "
                        "digits, fractions, exponents with signs and leading zeros, and shortest texts of random bit patterns; nesting 0-5 plus "
                        "a deep stream around the limit 999; random white space in every gap; all 16 print flag combinations; a mutated "
-                       "(malformed / lenient) stream; leaf ops for the unescaper, iwstrtod and iwjson_ftoa. A case is one op line with one "
+                       "(malformed / lenient) stream; leaf ops for the unescaper, iwstrtod (clean tokens, and a wild stream: white space, signs, up to 400 "
+                       "digits, exponents at the pow() limits and the accumulator cap, malformed tails, DBL_MIN special cases) and iwjson_ftoa; "
+                       "a hardware cross-check of the soft float (16 boundary-biased operand pairs per case: mul, add, div, ==, int conversion). A case is one op line with one "
                        "oracle; distinct = distinct op text; every case exercises parser or printer")
     ctx.assumptions += [
         "double magnitudes within 1e-290 .. 1e290 (or zero) and decimal exponents |e| <= 300 on the parse side: denormals and pow() under/overflow are out of scope",
         "documents to print hold finite doubles (JSON has no NaN/Infinity), keys without NUL bytes (C strings) and strings that are well-formed UTF-8",
         "texts contain no lone surrogate escapes (RFC 8259 leaves their meaning open; the library rejects them)",
-        "locale is \"C\" (isprint, decimal point of printf)"]
+        "locale is \"C\" (isprint, decimal point of printf)",
+        "binary64 arithmetic of the build is SSE2 without FMA contraction (gcc default on x86-64); libm pow(10, e) at run time is the one tabulated by the translator probe"]
     ctx.translate()
     ok, drv_ok = ctx.prove(MODULE, THEOREMS) if THEOREMS else _build_only(ctx)
     h = builds(ctx)
@@ -950,6 +1155,10 @@ def run(ctx):
     n = 30000 if ctx.tier == "quick" else 300000
     r = C.Rng(ctx.seed, "c13/main")
     explore(ctx, h, drv, fixed_cases() + gen_cases(r, n), "main")
+    rf = C.Rng(ctx.seed, "c13/f64")
+    nf = 6400 if ctx.tier == "quick" else 40000          # x 16 pairs x (mul, add, div, ==)
+    explore(ctx, h, drv, [case_f64(rf) for _ in range(nf)], "f64")
+    ctx.hist("f64-pairs", nf * F64_PAIRS)
     if (ctx.proof_broken or ctx.corr_broken) and not ctx.violations:
         ctx.log("obligation or correspondence broken: widening the search for a failing input")
         for i in range(3):
